@@ -223,16 +223,25 @@ def dyn_event(c):
             # beams are matched by their Miller indices (a user-assembled array lists them in its own order)
             where = {tuple(int(v) for v in h): i for i, h in enumerate(np.asarray(bwl.hkl))}
             align = [where.get(tuple(int(v) for v in h), -1) for h in hkl]
+            ref = inten
+            if src == "prebuilt_reordered":
+                # lazy / eager and expm / eigen are statements about ONE calculation: they are judged on the builder's own ordering;
+                # the user-ordered array is held to the same intensities where the ordering cannot matter (no beams with g_z != 0:
+                # with such beams the recorded M-matrix finding makes the result depend on the order at the 1e-4 level)
+                eager_own = np.asarray(bwl.calculate_diffraction_patterns(th, lazy=False).array, dtype=float)
+                ref = eager_own[:, align] if min(align) >= 0 and eager_own.shape == inten.shape else inten
+                if not ev["out_of_plane_beams"]:
+                    ev["lazy_ppb"] = ppb(float(np.abs(ref - inten).max())) if ref is not inten else 2 * 10 ** 9
             if lz.shape != inten.shape or min(align) < 0:
                 ev["lazy_ppb"] = 2 * 10 ** 9
             else:
-                ev["lazy_ppb"] = ppb(float(np.abs(lz[:, align] - inten).max()))
+                ev["lazy_ppb"] = max(ev["lazy_ppb"], ppb(float(np.abs(lz[:, align] - ref).max())))
             i0l = where[(0, 0, 0)]
             worst = 0.0
             for k, z in [(k, z) for k, z in enumerate(th) if z != 0.0][:2]:
                 S = bwl.calculate_scattering_matrix(z)
                 S = np.asarray(S.compute() if hasattr(S, "compute") else S)
-                worst = max(worst, float(np.abs((np.abs(S[:, i0l]) ** 2)[align] - inten[k]).max()) if min(align) >= 0 else 2.0)
+                worst = max(worst, float(np.abs((np.abs(S[:, i0l]) ** 2)[align] - ref[k]).max()) if min(align) >= 0 else 2.0)
             ev["expm_ppb"] = ppb(worst)
         except Exception as ex:
             ev["raised"] = True
